@@ -5,10 +5,14 @@ patch="$(realpath "$1")"; shift
 cd /verif || exit 2
 if ! git -C /repo diff --quiet; then echo "refusing: /repo has uncommitted changes"; exit 2; fi
 git -C /repo apply "$patch" || { echo "patch does not apply"; exit 2; }
+mkdir -p /verif/.build/evidence_backup
 for id in "$@"; do
+  cp -f "evidence/$id.json" "/verif/.build/evidence_backup/$id.json" 2>/dev/null
   out=$(./check "$id" --tier "${TIER:-quick}" --seed "${SEED:-1}" 2>&1); rc=$?
   v=$(echo "$out" | grep -c '^VIOLATION')
   if [ $rc -ne 0 ] && [ "$v" -gt 0 ]; then echo "CAUGHT $id: $(echo "$out" | grep '^VIOLATION' | head -1)"; else echo "MISSED $id (rc=$rc): $(echo "$out" | tail -1)"; fi
 done
 git -C /repo checkout -- .; python3 /verif/tools/rs2lean.py > /dev/null
+# evidence files must describe runs on the unchanged tree: put the saved ones back
+for id in "$@"; do cp -f "/verif/.build/evidence_backup/$id.json" "evidence/$id.json" 2>/dev/null; done
 git -C /repo status --short | head -3
